@@ -412,7 +412,18 @@ func (sc *metaScn) metaReload() bool {
 	}
 	e.vfQuiesce()
 	if !e.vfWaitUnloaded(sc.canon) {
-		sc.r.Inconclusive("meta reload: topic not unloaded")
+		diag := ""
+		if t := globals.hub.topicGet(sc.canon); t != nil {
+			for s := range t.sessions {
+				diag += fmt.Sprintf(" session(ua=%s uid=%s)", s.userAgent, s.uid.UserId())
+			}
+			diag += fmt.Sprintf(" status=%d", t.status)
+		}
+		var scr []string
+		for _, st := range sc.steps {
+			scr = append(scr, fmt.Sprintf("%s/%s/%s/%d", st.Actor, st.Kind, st.Arg, st.Code))
+		}
+		sc.r.Inconclusive("meta reload: topic " + sc.canon + " not unloaded:" + diag + " steps=" + strings.Join(scr, " "))
 		return false
 	}
 	for _, a := range was {
